@@ -163,7 +163,7 @@ structure G6 (s : St) : Prop where
   si : SpecInv (abs s)
   rc : RcOk (abs s)
   plain : ∀ c, s.cfg = some c → c.rc = false → s.refs = []
-  cfgc : s.cfg = none → s.calls = []
+  cfgc : s.cfg = none → s.calls = [] ∧ s.refs = []
   ids : (s.calls.map Call.id).Nodup
 
 end UtilModel.Keyed
